@@ -65,10 +65,10 @@ def f32_kernel(src, fname, lookup_re, lookup_name):
     body = block_after(src, rf"unsafe\s+fn\s+{fname}\s*<", f"fn {fname}")
     masks = masks_of(body, what)
     # --- the row loop `for i in rows { … }`
-    mrow = re.search(r"for\s+i\s+in\s+rows\s*\{", body)
+    mrow = re.search(r"for\s+\w+\s+in\s+rows\s*\{", body)
     if not mrow:
         raise ExtractError(f"{what}: `for i in rows`")
-    row = block_after(body[mrow.start():], r"for\s+i\s+in\s+rows\s*\{", f"{what}: row loop")
+    row = block_after(body[mrow.start():], r"for\s+\w+\s+in\s+rows\s*\{", f"{what}: row loop")
     mj = re.search(r"for\s+_\s+in\s+0\s*\.\.\s*pssm\.rows\(\)\s*\{", row)
     if not mj:
         raise ExtractError(f"{what}: `for _ in 0..pssm.rows()`")
@@ -157,10 +157,10 @@ def f32_kernel(src, fname, lookup_re, lookup_name):
 def u8_kernel(src):
     what = "avx2.rs::score_u8_avx2_shuffle"
     body = block_after(src, r"unsafe\s+fn\s+score_u8_avx2_shuffle\s*<", "fn score_u8_avx2_shuffle")
-    mrow = re.search(r"for\s+i\s+in\s+rows\s*\{", body)
+    mrow = re.search(r"for\s+\w+\s+in\s+rows\s*\{", body)
     if not mrow:
         raise ExtractError(f"{what}: `for i in rows`")
-    row = block_after(body[mrow.start():], r"for\s+i\s+in\s+rows\s*\{", f"{what}: row loop")
+    row = block_after(body[mrow.start():], r"for\s+\w+\s+in\s+rows\s*\{", f"{what}: row loop")
     mj = re.search(r"for\s+_\s+in\s+0\s*\.\.\s*pssm\.rows\(\)\s*\{", row)
     if not mj:
         raise ExtractError(f"{what}: `for _ in 0..pssm.rows()`")
